@@ -363,8 +363,10 @@ def install(E):
             head = sl[:-1]
             probe = z3.Concat(a, z3.StringVal(head)) if head else a
             ctx.assume(z3.Not(z3.Contains(probe, sep.z)))
-            # consequence of the two facts above, stated for the solvers: that is the first occurrence
+            # consequences of the two facts above, stated for the solvers: that is the first occurrence
             ctx.assume(z3.IndexOf(s.z, sep.z, 0) == z3.Length(a))
+            ctx.assume(z3.SubString(s.z, 0, z3.Length(a)) == a)
+            ctx.assume(z3.SubString(s.z, z3.Length(a) + len(sl), z3.Length(s.z)) == b)
         else:
             ctx.assume(z3.IndexOf(s.z, sep.z, 0) == z3.Length(a))
         return same(s, a), same(s, b)
